@@ -152,6 +152,9 @@ def condHolds (ar : Arith) (ty : NumTy) (cond : Option (RelOp × Int)) (cur : In
   | none => true
   | some (op, ref) => numCmp ar ty op cur ref
 
+/-- reply of the slice requests: collected per-key errors surface as InvalidArgument -/
+def errOr (e : Bool) : Resp := if e then .err "InvalidArgument" else .ok
+
 /-- sorted, duplicate-free answer map of AreKeysExist -/
 def flagMap (f : Key → Bool) (keys : List Key) : List (Key × Bool) :=
   keys.foldl (fun acc k => AL.insert k (f k) acc) []
@@ -305,24 +308,18 @@ def step (ar : Arith) (now : Int) (st : Store) : Req → Store × Resp
   | .inc ty k by_ cond ine ie => incStep ar now st ty k by_ cond ine ie
   | .push pairs =>
     let (st', e) := foldPairs pushOne st pairs
-    (st', if e then .err "InvalidArgument" else .ok)
+    (st', errOr e)
   | .u32del pairs =>
     let (st', e) := foldPairs u32delOne st pairs
-    (st', if e then .err "InvalidArgument" else .ok)
+    (st', errOr e)
   | .size k =>
     match AL.find k st with
     | none => (st, .err "InvalidArgument")
-    | some r =>
-      match r.val with
-      | .u32s l => (st, .size l.length)
-      | _ => (st, .err "FailedPrecondition")
+    | some r => if r.val.isSlice then (st, .size r.val.sliceD.length) else (st, .err "FailedPrecondition")
   | .hasVal k v =>
     match AL.find k st with
     | none => (st, .err "InvalidArgument")
-    | some r =>
-      match r.val with
-      | .u32s l => (st, .flag (l.contains v))
-      | _ => (st, .flag false)
+    | some r => if r.val.isSlice then (st, .flag (r.val.sliceD.contains v)) else (st, .flag false)
 
 /-- idle eviction / graceful stop followed by a re-summon: an in-memory swamp forgets
     everything, a persistent one nothing (C05) -/
@@ -740,85 +737,73 @@ def stepCore (cfg : Cfg) (ar : Arith) (now : Int) (s : State) (req : Req) : Out 
     else if !create && !over then ⟨s, .setErr "CanNotBeExecuted" (!cfg.setErrSingle), if cfg.setErrSingle then [] else [Tag.setErrDup]⟩
     else if !create && !exists_ s then ⟨s, .setErr "SwampDoesNotExist" (!cfg.setErrSingle), if cfg.setErrSingle then [] else [Tag.setErrDup]⟩
     else
-      let (i, ss, tg) := setLoop cfg create over (summon s) items
-      let (s', tg') := settleAfterTouch cfg s i
-      ⟨s', .sts ss, tg ++ tg'⟩
+      let r := setLoop cfg create over (summon s) items
+      let st := settleAfterTouch cfg s r.1
+      ⟨st.1, .sts r.2.1, r.2.2 ++ st.2⟩
   | .get keys =>
     if !exists_ s then ⟨s, .err "FailedPrecondition", []⟩
-    else
-      let i := summon s
-      ⟨withLive s i, .recs (keys.map fun k => (AL.find k i.recs).map fun t => wire t.abs), []⟩
+    else ⟨withLive s (summon s), .recs (keys.map fun k => (AL.find k (summon s).recs).map fun t => wire t.abs), []⟩
   | .getAll =>
     if !exists_ s then ⟨s, .err "FailedPrecondition", []⟩
-    else
-      let i := summon s
-      ⟨withLive s i, .kvs (AL.mapV (fun t => wire t.abs) i.recs), []⟩
+    else ⟨withLive s (summon s), .kvs (AL.mapV (fun t => wire t.abs) (summon s).recs), []⟩
   | .getByKeys keys =>
     if !exists_ s then ⟨s, .err "FailedPrecondition", []⟩
-    else
-      let i := summon s
-      ⟨withLive s i, .kvs (keys.filterMap fun k => (AL.find k i.recs).map fun t => (k, wire t.abs)), []⟩
+    else ⟨withLive s (summon s),
+          .kvs (keys.filterMap fun k => (AL.find k (summon s).recs).map fun t => (k, wire t.abs)), []⟩
   | .shift keys =>
     if !exists_ s then ⟨s, .err "FailedPrecondition", []⟩
     else
-      let (i, out) := shiftLoop (summon s) keys
-      ⟨settleAfterDelete s i, .kvs out, []⟩
+      let r := shiftLoop (summon s) keys
+      ⟨settleAfterDelete s r.1, .kvs r.2, []⟩
   | .del keys =>
     if !exists_ s then ⟨s, .delErr, []⟩
     else
-      let i0 := summon s
-      let (i, out) := delLoop i0 keys
+      let r := delLoop (summon s) keys
       -- DeleteTreasure destroys only after an actual delete
-      if i.recs.isEmpty && !i0.recs.isEmpty then ⟨destroy s, .sts out, []⟩ else ⟨withLive s i, .sts out, []⟩
+      ⟨if r.1.recs.isEmpty && !(summon s).recs.isEmpty then destroy s else withLive s r.1, .sts r.2, []⟩
   | .count =>
     if !exists_ s then
       if cfg.countMissingOk then ⟨s, .count none, []⟩ else ⟨s, .err "FailedPrecondition", [Tag.countPrecondition]⟩
-    else
-      let i := summon s
-      ⟨withLive s i, .count (some i.recs.length), []⟩
+    else ⟨withLive s (summon s), .count (some (summon s).recs.length), []⟩
   | .isKey k =>
     if !exists_ s then ⟨s, .err "FailedPrecondition", []⟩
-    else
-      let i := summon s
-      ⟨withLive s i, .flag (AL.has k i.recs), []⟩
+    else ⟨withLive s (summon s), .flag (AL.has k (summon s).recs), []⟩
   | .areKeys keys =>
     if !exists_ s then
       if cfg.arekAllFalse then ⟨s, .flags (flagMap (fun _ => false) keys), []⟩
       else ⟨s, .err "FailedPrecondition", [Tag.arekPrecondition]⟩
-    else
-      let i := summon s
-      ⟨withLive s i, .flags (flagMap (fun k => AL.has k i.recs) keys), []⟩
+    else ⟨withLive s (summon s), .flags (flagMap (fun k => AL.has k (summon s).recs) keys), []⟩
   | .isSwamp => ⟨s, .flag (exists_ s), []⟩
   | .inc ty k by_ cond ine ie => incStep cfg ar now s ty k by_ cond ine ie
   | .push pairs =>
-    let (i, e, tg) := pushLoop cfg (summon s) pairs
-    let (s', tg') := settleAfterTouch cfg s i
-    ⟨s', if e then .err "InvalidArgument" else .ok, tg ++ tg'⟩
+    let r := pushLoop cfg (summon s) pairs
+    let st := settleAfterTouch cfg s r.1
+    ⟨st.1, errOr r.2.1, r.2.2 ++ st.2⟩
   | .u32del pairs =>
-    match u32delLoop cfg s.kind (summon s) pairs with
-    | (_, _, true, tg) => ⟨{ s with dead := true }, .hang, tg⟩
-    | (none, e, false, tg) => ⟨destroy s, if e then .err "InvalidArgument" else .ok, tg⟩
-    | (some i, e, false, tg) =>
-      let (s', tg') := settleAfterTouch cfg s i
-      ⟨s', if e then .err "InvalidArgument" else .ok, tg ++ tg'⟩
+    let r := u32delLoop cfg s.kind (summon s) pairs
+    if r.2.2.1 then ⟨{ s with dead := true }, .hang, r.2.2.2⟩
+    else
+      match r.1 with
+      | none => ⟨destroy s, errOr r.2.1, r.2.2.2⟩
+      | some i =>
+        let st := settleAfterTouch cfg s i
+        ⟨st.1, errOr r.2.1, r.2.2.2 ++ st.2⟩
   | .size k =>
-    let i := summon s
-    let (s', tg) := settleAfterTouch cfg s i
-    match AL.find k i.recs with
-    | none => ⟨s', .err "InvalidArgument", tg⟩
+    let st := settleAfterTouch cfg s (summon s)
+    match AL.find k (summon s).recs with
+    | none => ⟨st.1, .err "InvalidArgument", st.2⟩
     | some t =>
       match t.c.slice with
-      | none => ⟨s', .err "FailedPrecondition", tg⟩
-      | some l => ⟨s', .size l.length, tg ++ (if t.c.vis.isSlice then [] else [Tag.hiddenSlice])⟩
+      | none => ⟨st.1, .err "FailedPrecondition", st.2⟩
+      | some l => ⟨st.1, .size l.length, st.2 ++ (if t.c.vis.isSlice then [] else [Tag.hiddenSlice])⟩
   | .hasVal k v =>
-    let i := summon s
-    let (s', tg) := settleAfterTouch cfg s i
-    match AL.find k i.recs with
-    | none => ⟨s', .err "InvalidArgument", tg⟩
+    let st := settleAfterTouch cfg s (summon s)
+    match AL.find k (summon s).recs with
+    | none => ⟨st.1, .err "InvalidArgument", st.2⟩
     | some t =>
       match t.c.slice with
-      | none => ⟨s', .flag false, tg⟩
-      | some l => ⟨s', .flag (l.contains v), tg ++ (if t.c.vis.isSlice then [] else [Tag.hiddenSlice])⟩
+      | none => ⟨st.1, .flag false, st.2⟩
+      | some l => ⟨st.1, .flag (l.contains v), st.2 ++ (if t.c.vis.isSlice then [] else [Tag.hiddenSlice])⟩
 
 /-- `Close` (idle eviction or graceful stop): flush the write buffer, drop the instance -/
 def closeStep (cfg : Cfg) (s : State) : State × List Tag :=
